@@ -35,6 +35,7 @@
 import Oracle.Basic
 import S2.CellUnion
 import S2.Coverer
+import S2.CovererRegions
 import S2.Exact
 import S2.Pred
 namespace Oracle.C05
@@ -373,11 +374,15 @@ def judgeInterior (which : String) (f? : Option (CellID → Bool)) (skip : CU) (
 
 /-! ### model -/
 
-def modelRegion (r : Reg) : Option Region :=
+/-- the exact-id regions: the SAME `Region` values the theorems of `S2Proofs.Properties.C05_Cells`
+    are about (`S2.Coverer.regionOf`) -/
+def modelKind (r : Reg) : Option RegionKind :=
   match r with
-  | .cell id => some ⟨fun c => contains id c, fun c => intersects id c⟩
-  | .cu cells _ => some (cellUnionRegion cells)
+  | .cell id => some (.cell id)
+  | .cu cells _ => some (.cellUnion cells)
   | _ => none
+
+def modelRegion (r : Reg) : Option Region := (modelKind r).map regionOf
 
 def parseRes? (s : String) : Option (Option CU) :=
   if s == "x" then some none else (parseCU? s).map some
@@ -504,10 +509,9 @@ def handlePred (ulp : Bool) (kind params sCell sSamples : String) (res : List St
           else if cT && !iT then some "contains-without-intersects"
           else none
       -- model: exact id predicates for cell / cell-union regions
-      let model : List String := match reg with
-        | .cell rid => [showBool (contains rid id), showBool (intersects rid id)]
-        | .cu cells _ => [showBool (containsCellID cells id), showBool (intersectsCellID cells id)]
-        | _ => res
+      let model : List String := match modelRegion reg with
+        | some R => [showBool (R.containsCell id), showBool (R.intersectsCell id)]
+        | none => res
       pure (verdictP model res prop)
     | _, _ =>
       if res.any (fun t => t.startsWith "PANIC") then pure ("propfail panic " ++ " ".intercalate res)
